@@ -281,7 +281,7 @@ def derive_case(draw):
         wf, hf = (0.0, 0.0) if wmode == "whole" else (draw(st.sampled_from([0.0, 0.25, 0.5, 0.9])), draw(st.sampled_from([0.1, 0.25, 0.5, 0.9])))
         wins.append([ws + wf, hs + hf if (hs + hf <= ws + wf or hs > ws) else float(hs)])
     spec = {"rec": rs, "a": a, "off": off, "length": length, "ops": ops, "targets": targets, "wins": wins, "whole_recording": draw(st.integers(0, 3)) == 0,
-            "sample_dtype": draw(st.sampled_from([None, None, "float32"])),
+            "sample_dtype": draw(st.sampled_from([None, None, "float32"])), "channel_first": draw(st.integers(0, 3)) == 0,
             # a time slice cut off the loaded array before it is processed (xarray keeps coordinate attributes through isel) and
             # non-default spectrogram options: the axes still start at the (sliced) source's start
             "slice": draw(st.sampled_from([0, 0, 1, 7, 50])),
@@ -317,6 +317,10 @@ def check_derive(spec, ctx):
     if spec.get("slice") and src.sizes["time"] > spec["slice"] + 16:
         src = src.isel(time=slice(spec["slice"], None))
         what += f".isel(time=slice({spec['slice']}, None))"
+    if spec.get("channel_first") and "channel" in src.dims:
+        # the same samples laid out channel-first (what a model's input pipeline hands back): operations go by dimension NAME
+        src = src.transpose("channel", "time")
+        what += ".transpose(channel, time)"
     skw = dict(spec.get("spec_kw") or {})
     if not set(skw) <= {"padded", "boundary", "window_type", "detrend"} or skw.get("boundary", "zeros") not in ("zeros", "even", "odd", "constant"):
         raise ValueError("malformed spec")
@@ -350,8 +354,17 @@ def check_derive(spec, ctx):
             if cur.sizes["time"] / max(1.0, math.floor(h)) * (math.ceil(w) / 2 + 1) * nch > MAX_ELEMENTS:
                 ctx.label("too_large_skipped")
                 continue
+            if cur.dims[0] != "time":
+                cur = cur.transpose("time", ...)  # compute_spectrogram is written for (time, channel) input and raises on other layouts (observation, 11.3)
             out = ctx.call(spec, f"compute_spectrogram(window={w} samples, hop={h} samples @ {cur_rate} Hz)", audio.compute_spectrogram, cur, window_size=ws, hop_size=hs, **skw)
             produced.append((f"compute_spectrogram(window={w}, hop={h} samples)", out, first))
+            if nch >= 2 and "channel" in out.dims and out.sizes["channel"] == nch:
+                # the channel axis tells the truth as well: what the array holds for channel c is the spectrogram of channel c alone
+                c_ = (int(w) + int(h)) % nch
+                alone = audio.compute_spectrogram(cur.isel(channel=[c_]), window_size=ws, hop_size=hs, **skw)
+                a_, b_ = np.asarray(alone.transpose("frequency", "time", "channel").values), np.asarray(out.isel(channel=[c_]).transpose("frequency", "time", "channel").values)
+                if a_.shape != b_.shape or not np.allclose(a_, b_, rtol=1e-9, atol=1e-300, equal_nan=True):
+                    ctx.fail(f"compute_spectrogram of {nch} channels: the values stored for channel {c_} are not the spectrogram of channel {c_} computed alone", spec, None, None, kind="channel_axis")
             check_axis(ctx, spec, out, "frequency", "compute_spectrogram", first_expected=0.0)
             f = np.asarray(out.coords["frequency"].values)
             if f.size and f[-1] > cur_rate / 2 * (1 + 1e-9):
